@@ -94,6 +94,289 @@ theorem susp_travAll (g : Guards) (c : Nat) (fr fw rd wr : Nat → Bool) :
   | nil => intro d h; exact h
   | cons a rest ih => intro d h; simp only [travAll]; exact ih _ (susp_turnWith _ d a c h)
 
+/-! ### the phases of a round that are not traversals -/
+
+theorem epollEvents_resuming : ∀ (l : List (Nat × Bool × Bool)) (d : Daemon), (epollEvents l d).resuming = d.resuming := by
+  intro l; induction l with
+  | nil => intro d; rfl
+  | cons e r ih => intro d; obtain ⟨a, i, o⟩ := e; simp only [epollEvents]; split
+                   · exact ih d
+                   · rw [ih]; simp
+
+theorem processNew_resuming : ∀ (l : List Nat) (d : Daemon), (processNew l d).1.resuming = d.resuming := by
+  intro l; induction l with
+  | nil => intro d; rfl
+  | cons a r ih => intro d; simp only [processNew]; rw [ih]
+
+/-- the state before the other thread's call: consistent, `c` suspended, no resume requested -/
+def FS (c : Nat) (d : Daemon) : Prop := WF d ∧ Frz c d
+/-- the state after it: consistent, the request pending -/
+def GS (c : Nat) (d : Daemon) : Prop := WF d ∧ Pend c d
+
+theorem GS_of_FS_resumeReq {c : Nat} {d : Daemon} (h : FS c d) : GS c (resumeReq d c).1 :=
+  ⟨WF_resumeReq h.1 c, Pend_resumeReq d c h.2.1⟩
+
+theorem FS_of_FZ {c : Nat} {d d' : Daemon} {evs} (h : FZ c d evs d') (hf : FS c d) : FS c d' :=
+  ⟨(h hf.1 hf.2).1, (h hf.1 hf.2).2.2.2.1⟩
+
+theorem GS.notActive {c : Nat} {d : Daemon} (h : GS c d) : c ∉ d.active := fun hm => h.1.act_nosusp c hm h.2.1
+
+theorem GS_epollPhase (c : Nat) (evs : List (Nat × Bool × Bool)) (d : Daemon) (h : GS c d) :
+    GS c (epollEvents evs { d with pending := false }) := by
+  have hw0 : WF ({ d with pending := false } : Daemon) :=
+    ⟨h.1.susp_iff, h.1.act_nosusp, h.1.nd_active, h.1.nd_susp, h.1.er_sub, h.1.to_sub, h.1.new_fresh,
+      h.1.nd_new, h.1.nd_eready, h.1.nd_to, h.1.no_lost⟩
+  have fr := epollEvents_frame c evs { d with pending := false } h.notActive h.2.1
+  refine ⟨(WK_epollEvents evs _ hw0).1, fr.2.1, ?_, ?_⟩
+  · rw [fr.1]; exact h.2.2.1
+  · rw [epollEvents_resuming]; exact h.2.2.2
+
+theorem GS_newPhase (c : Nat) (d : Daemon) (h : GS c d) : GS c (newPhase d).1 := by
+  have hn : c ∉ d.newConns := fun hm => (h.1.new_fresh c hm).2 h.2.1
+  have fr := processNew_frame c d.newConns { d with pending := false } hn
+  refine ⟨(WK_newPhase d h.1).1, ?_, ?_, ?_⟩
+  · simp only [newPhase]; rw [fr.2.1]; exact h.2.1
+  · simp only [newPhase]; rw [fr.1]; exact h.2.2.1
+  · simp only [newPhase]; rw [processNew_resuming]; exact h.2.2.2
+
+theorem GS_timeoutScan (g : Guards) (hg : g.Sound) (c : Nat) (d : Daemon) (h : GS c d) : GS c (timeoutScan g d).1 := by
+  refine ⟨(WK_timeoutScan g hg d h.1).1, ?_⟩
+  simp only [timeoutScan]
+  split
+  · next a ha =>
+    have hact : a ∈ d.active := h.1.to_sub a (List.mem_of_getLast? ha)
+    exact Pend_turnWith c a (fun e => h.notActive (e ▸ hact)) _ d h.2
+  · exact h.2
+
+theorem notMem_of_known {c : Nat} {l : List Nat} (h : ∀ a ∈ l, a ≠ c) : c ∉ l := fun hm => h c hm rfl
+
+theorem GS_travEready (g : Guards) (hg : g.Sound) (c : Nat) (l : List Nat) (d : Daemon) (hl : ∀ a ∈ l, Known d a ∧ a ≠ c)
+    (h : GS c d) : GS c (travEready g l d).1 :=
+  ⟨(WK_travEready g hg l d (fun a ha => (hl a ha).1) h.1).1,
+   Pend_travEready g c l d (notMem_of_known (fun a ha => (hl a ha).2)) h.2⟩
+
+theorem GS_travSelect (g : Guards) (hg : g.Sound) (c : Nat) (fr fw rd wr : Nat → Bool) (l : List Nat) (d : Daemon)
+    (hl : ∀ a ∈ l, Known d a ∧ a ≠ c) (h : GS c d) : GS c (travSelect g fr fw rd wr l d).1 :=
+  ⟨(WK_travSelect g hg fr fw rd wr l d (fun a ha => (hl a ha).1) h.1).1,
+   Pend_travSelect g c fr fw rd wr l d (notMem_of_known (fun a ha => (hl a ha).2)) h.2⟩
+
+theorem GS_travAll (g : Guards) (hg : g.Sound) (c : Nat) (fr fw rd wr : Nat → Bool) (l : List Nat) (d : Daemon)
+    (hl : ∀ a ∈ l, Known d a ∧ a ≠ c) (h : GS c d) : GS c (travAll g fr fw rd wr l d).1 :=
+  ⟨(WK_travAll g hg fr fw rd wr l d (fun a ha => (hl a ha).1) h.1).1,
+   Pend_travAll g c fr fw rd wr l d (notMem_of_known (fun a ha => (hl a ha).2)) h.2⟩
+
+/-! ### a round with the other thread's MHD_resume_connection landing at position `p` -/
+
+/-- `MHD_resume_connection (c)` by another thread right here, if this is position `k` -/
+def injAt (c : Nat) (p : Option Nat) (k : Nat) (r : Daemon × List Ev) : Daemon × List Ev :=
+  if p = some k then bindD (fun d => resumeReq d c) r else r
+
+/-- a connection traversal `T` over the snapshot `l`; positions `base`, `base+1`, … are the points before the
+    1st, 2nd, … turn (any position past the end = after the last turn) -/
+def splitTrav (T : List Nat → Daemon → Daemon × List Ev) (c : Nat) (p : Option Nat) (base : Nat) (l : List Nat)
+    (r : Daemon × List Ev) : Daemon × List Ev :=
+  match p with
+  | some q =>
+    if base ≤ q then bindD (T (l.drop (q - base))) (bindD (fun d => resumeReq d c) (bindD (T (l.take (q - base))) r))
+    else bindD (T l) r
+  | none => bindD (T l) r
+
+/-- MHD_epoll; positions: 0 before resume_suspended_connections, 1 after it, 2 after the epoll_wait results,
+    3 after new_connections_list_process_, 4 after the timeout scan = before the first eready turn, 4+j before turn j+1 -/
+def roundEpollAt (g : Guards) (d : Daemon) (ids : List Nat) (evs : List (Nat × Bool × Bool)) (c : Nat) (p : Option Nat) :
+    Daemon × List Ev :=
+  let r0 := injAt c p 0 (timers d ids)
+  let r1 := injAt c p 1 (bindD (resumeSuspended g) r0)
+  let r2 := injAt c p 2 (bindD (pureD (fun d => epollEvents evs { d with pending := false })) r1)
+  let r3 := injAt c p 3 (bindD newPhase r2)
+  let r4 := bindD (timeoutScan g) r3
+  splitTrav (travEready g) c p 4 r4.1.eready.reverse r4
+
+/-- MHD_run_from_select2; positions: 0 before resume_suspended_connections, 1 after it, 2 after
+    new_connections_list_process_ = before the first turn, 2+j before turn j+1 -/
+def roundSelectAt (g : Guards) (d : Daemon) (ids : List Nat) (rd wr : Nat → Bool) (c : Nat) (p : Option Nat) :
+    Daemon × List Ev :=
+  let t := timers d ids
+  let fr := fun a => t.1.active.contains a && (t.1.conn a).eli.hasRead
+  let fw := fun a => t.1.active.contains a && (t.1.conn a).eli == .write
+  let r0 := injAt c p 0 t
+  let r1 := injAt c p 1 (bindD (resumeSuspended g) r0)
+  let r2 := bindD newPhase r1
+  splitTrav (travSelect g fr fw rd wr) c p 2 r2.1.active.reverse r2
+
+/-- MHD_poll_all; positions as for select (the snapshot and the poll set are taken before new connections are added) -/
+def roundPollAt (g : Guards) (d : Daemon) (ids : List Nat) (rd wr : Nat → Bool) (c : Nat) (p : Option Nat) :
+    Daemon × List Ev :=
+  let r0 := injAt c p 0 (timers d ids)
+  let r1 := injAt c p 1 (bindD (resumeSuspended g) r0)
+  let fr := fun a => (r1.1.conn a).eli.hasRead
+  let fw := fun a => (r1.1.conn a).eli == .write
+  let r2 := bindD newPhase r1
+  splitTrav (travAll g fr fw rd wr) c p 2 r1.1.active.reverse r2
+
+/-- without the other thread these are the rounds of the model -/
+theorem roundEpollAt_none (g : Guards) (d : Daemon) (ids : List Nat) (evs : List (Nat × Bool × Bool)) (c : Nat) :
+    roundEpollAt g d ids evs c none = roundEpoll g d ids evs := by
+  simp [roundEpollAt, roundEpoll, injAt, splitTrav, bindD]
+
+theorem roundSelectAt_none (g : Guards) (d : Daemon) (ids : List Nat) (rd wr : Nat → Bool) (c : Nat) :
+    roundSelectAt g d ids rd wr c none = roundSelect g d ids rd wr := by
+  simp [roundSelectAt, roundSelect, injAt, splitTrav, bindD]
+
+theorem roundPollAt_none (g : Guards) (d : Daemon) (ids : List Nat) (rd wr : Nat → Bool) (c : Nat) :
+    roundPollAt g d ids rd wr c none = roundPoll g d ids rd wr := by
+  simp [roundPollAt, roundPoll, pollPhase, injAt, splitTrav, bindD, List.append_assoc]
+
+/-- before position `k` of a round in which the request lands at position `q`: has it landed yet? -/
+def Stg (c q k : Nat) (d : Daemon) : Prop := if q < k then GS c d else FS c d
+
+theorem Stg_inj {c q k : Nat} {r : Daemon × List Ev} (h : Stg c q k r.1) : Stg c q (k + 1) (injAt c (some q) k r).1 := by
+  unfold Stg injAt at *
+  by_cases h1 : q < k
+  · have hne : ¬ (some q = some k) := by intro e; injection e with e; omega
+    rw [if_pos h1] at h; rw [if_neg hne, if_pos (by omega)]; exact h
+  · rw [if_neg h1] at h
+    by_cases h2 : q = k
+    · subst h2
+      rw [if_pos rfl, if_pos (by omega)]
+      exact GS_of_FS_resumeReq h
+    · have hne : ¬ (some q = some k) := by intro e; injection e with e; exact h2 e
+      rw [if_neg hne, if_neg (by omega)]; exact h
+
+theorem Stg_phase {c q k : Nat} {f : Daemon → Daemon × List Ev} (hF : ∀ d, FS c d → FS c (f d).1)
+    (hG : ∀ d, GS c d → GS c (f d).1) {r : Daemon × List Ev} (h : Stg c q k r.1) : Stg c q k (bindD f r).1 := by
+  unfold Stg at *
+  split
+  · next h1 => rw [if_pos h1] at h; exact hG _ h
+  · next h1 => rw [if_neg h1] at h; exact hF _ h
+
+theorem Known_resumeReq (d : Daemon) (c a : Nat) : Known (resumeReq d c).1 a ↔ Known d a := by simp [Known, resumeReq]
+
+theorem GS_splitTrav {c : Nat} (T : List Nat → Daemon → Daemon × List Ev)
+    (hTF : ∀ l d, (∀ a ∈ l, Known d a ∧ a ≠ c) → FS c d → FS c (T l d).1 ∧ ∀ a, Known d a → Known (T l d).1 a)
+    (hTG : ∀ l d, (∀ a ∈ l, Known d a ∧ a ≠ c) → GS c d → GS c (T l d).1)
+    (q base : Nat) (l : List Nat) (r : Daemon × List Ev) (hl : ∀ a ∈ l, Known r.1 a ∧ a ≠ c) (h : Stg c q base r.1) :
+    GS c (splitTrav T c (some q) base l r).1 := by
+  unfold splitTrav Stg at *
+  simp only []
+  by_cases hb : base ≤ q
+  · rw [if_pos hb]
+    rw [if_neg (by omega)] at h
+    have a := hTF (l.take (q - base)) r.1 (fun x hx => hl x (List.mem_of_mem_take hx)) h
+    have b : GS c (resumeReq (T (l.take (q - base)) r.1).1 c).1 := GS_of_FS_resumeReq a.1
+    exact hTG (l.drop (q - base)) _ (fun x hx =>
+      ⟨(Known_resumeReq _ c x).2 (a.2 x (hl x (List.mem_of_mem_drop hx)).1), (hl x (List.mem_of_mem_drop hx)).2⟩) b
+  · rw [if_neg hb]
+    rw [if_pos (by omega)] at h
+    exact hTG l r.1 hl h
+
+theorem mem_bindD {e : Ev} {f : Daemon → Daemon × List Ev} {r : Daemon × List Ev} (h : e ∈ r.2) : e ∈ (bindD f r).2 :=
+  List.mem_append_left _ h
+
+theorem mem_injAt {e : Ev} {c : Nat} {p : Option Nat} {k : Nat} {r : Daemon × List Ev} (h : e ∈ r.2) : e ∈ (injAt c p k r).2 := by
+  unfold injAt; split
+  · exact mem_bindD h
+  · exact h
+
+theorem mem_splitTrav {e : Ev} {T : List Nat → Daemon → Daemon × List Ev} {c : Nat} {p : Option Nat} {b : Nat} {l : List Nat}
+    {r : Daemon × List Ev} (h : e ∈ r.2) : e ∈ (splitTrav T c p b l r).2 := by
+  unfold splitTrav
+  split
+  · split
+    · exact mem_bindD (mem_bindD (mem_bindD h))
+    · exact mem_bindD h
+  · exact mem_bindD h
+
+/-- the common start of every round: script timers, then the request lands before resume_suspended_connections
+    (position 0: served by this very call) or the call leaves the frozen connection alone -/
+theorem round_head (g : Guards) (c : Nat) (d : Daemon) (hw : WF d) (hf : Frz c d) (ht : (d.conn c).timer ≠ some 0)
+    (ids : List Nat) (hnd : ids.Nodup) :
+    (c, CEv.resumed) ∈ (bindD (resumeSuspended g) (injAt c (some 0) 0 (timers d ids))).2 ∧
+    (∀ q, 1 ≤ q → Stg c q 1 (bindD (resumeSuspended g) (injAt c (some q) 0 (timers d ids))).1) := by
+  have ft : FS c (timers d ids).1 := FS_of_FZ (FZ_timerScan c ids d hnd (Or.inl ht)) ⟨hw, hf⟩
+  refine ⟨?_, fun q hq => ?_⟩
+  · have gs : GS c (resumeReq (timers d ids).1 c).1 := GS_of_FS_resumeReq ft
+    have rm := resume_moves_back g _ gs.1 c gs.2.1 gs.2.2.1
+    simp only [injAt, if_true, bindD]
+    exact List.mem_append_right _ rm.1
+  · have hne : ¬ (some q = some 0) := by intro e; injection e with e; omega
+    simp only [injAt, if_neg hne, Stg, if_neg (show ¬ q < 1 by omega)]
+    exact FS_of_FZ (FZ_resumeSuspended g c (timers d ids).1) ft
+
+theorem Stg.wf_susp {c q k : Nat} {d : Daemon} (h : Stg c q k d) : WF d ∧ c ∈ d.susp := by
+  unfold Stg at h; split at h
+  · exact ⟨h.1, h.2.1⟩
+  · exact ⟨h.1, h.2.1⟩
+
+theorem trav_list_ok {c : Nat} {d : Daemon} (h : WF d ∧ c ∈ d.susp) (l : List Nat) (hl : ∀ a ∈ l, a ∈ d.active) :
+    ∀ a ∈ l, Known d a ∧ a ≠ c :=
+  fun a ha => ⟨Or.inl (hl a ha), fun e => h.1.act_nosusp c (e ▸ hl a ha) h.2⟩
+
+/-- RESUME AT ANY POINT OF AN EPOLL ROUND -/
+theorem resume_any_point_epoll (g : Guards) (hg : g.Sound) (c : Nat) (d : Daemon) (hw : WF d) (hf : Frz c d)
+    (ht : (d.conn c).timer ≠ some 0) (ids : List Nat) (hnd : ids.Nodup) (evs : List (Nat × Bool × Bool)) :
+    (c, CEv.resumed) ∈ (roundEpollAt g d ids evs c (some 0)).2 ∧
+    ∀ q, 1 ≤ q → GS c (roundEpollAt g d ids evs c (some q)).1 := by
+  have hd := round_head g c d hw hf ht ids hnd
+  refine ⟨?_, fun q hq => ?_⟩
+  · unfold roundEpollAt; simp only []
+    exact mem_splitTrav (mem_bindD (mem_injAt (mem_bindD (mem_injAt (mem_bindD (mem_injAt hd.1))))))
+  · have s1 := Stg_inj (hd.2 q hq)
+    have s2 := Stg_inj (Stg_phase (f := pureD (fun d => epollEvents evs { d with pending := false }))
+      (fun x hx => FS_of_FZ (FZ_epollPhase c evs x) hx) (fun x hx => GS_epollPhase c evs x hx) s1)
+    have s3 := Stg_inj (Stg_phase (f := newPhase) (fun x hx => FS_of_FZ (FZ_newPhase c x) hx) (fun x hx => GS_newPhase c x hx) s2)
+    have s4 := Stg_phase (f := timeoutScan g) (fun x hx => FS_of_FZ (FZ_timeoutScan g hg c x) hx)
+      (fun x hx => GS_timeoutScan g hg c x hx) s3
+    unfold roundEpollAt; simp only []
+    refine GS_splitTrav (travEready g)
+      (fun l x hl hx => ⟨FS_of_FZ (FZ_travEready g hg c l x hl) hx, (FZ_travEready g hg c l x hl hx.1 hx.2).2.1⟩)
+      (fun l x hl hx => GS_travEready g hg c l x hl hx) q 4 _ _ ?_ s4
+    exact trav_list_ok s4.wf_susp _ (fun a ha => s4.wf_susp.1.er_sub a (List.mem_reverse.1 ha))
+
+/-- RESUME AT ANY POINT OF A SELECT ROUND -/
+theorem resume_any_point_select (g : Guards) (hg : g.Sound) (c : Nat) (d : Daemon) (hw : WF d) (hf : Frz c d)
+    (ht : (d.conn c).timer ≠ some 0) (ids : List Nat) (hnd : ids.Nodup) (rd wr : Nat → Bool) :
+    (c, CEv.resumed) ∈ (roundSelectAt g d ids rd wr c (some 0)).2 ∧
+    ∀ q, 1 ≤ q → GS c (roundSelectAt g d ids rd wr c (some q)).1 := by
+  have hd := round_head g c d hw hf ht ids hnd
+  refine ⟨?_, fun q hq => ?_⟩
+  · unfold roundSelectAt; simp only []
+    exact mem_splitTrav (mem_bindD (mem_injAt hd.1))
+  · have s1 := Stg_inj (hd.2 q hq)
+    have s2 := Stg_phase (f := newPhase) (fun x hx => FS_of_FZ (FZ_newPhase c x) hx) (fun x hx => GS_newPhase c x hx) s1
+    unfold roundSelectAt; simp only []
+    refine GS_splitTrav (travSelect g _ _ rd wr)
+      (fun l x hl hx => ⟨FS_of_FZ (FZ_travSelect g hg c _ _ rd wr l x hl) hx, (FZ_travSelect g hg c _ _ rd wr l x hl hx.1 hx.2).2.1⟩)
+      (fun l x hl hx => GS_travSelect g hg c _ _ rd wr l x hl hx) q 2 _ _ ?_ s2
+    exact trav_list_ok s2.wf_susp _ (fun a ha => List.mem_reverse.1 ha)
+
+/-- RESUME AT ANY POINT OF A POLL ROUND -/
+theorem resume_any_point_poll (g : Guards) (hg : g.Sound) (c : Nat) (d : Daemon) (hw : WF d) (hf : Frz c d)
+    (ht : (d.conn c).timer ≠ some 0) (ids : List Nat) (hnd : ids.Nodup) (rd wr : Nat → Bool) :
+    (c, CEv.resumed) ∈ (roundPollAt g d ids rd wr c (some 0)).2 ∧
+    ∀ q, 1 ≤ q → GS c (roundPollAt g d ids rd wr c (some q)).1 := by
+  have hd := round_head g c d hw hf ht ids hnd
+  refine ⟨?_, fun q hq => ?_⟩
+  · unfold roundPollAt; simp only []
+    exact mem_splitTrav (mem_bindD (mem_injAt hd.1))
+  · have s1 := Stg_inj (hd.2 q hq)
+    have s2 := Stg_phase (f := newPhase) (fun x hx => FS_of_FZ (FZ_newPhase c x) hx) (fun x hx => GS_newPhase c x hx) s1
+    unfold roundPollAt; simp only []
+    refine GS_splitTrav (travAll g _ _ rd wr)
+      (fun l x hl hx => ⟨FS_of_FZ (FZ_travAll g hg c _ _ rd wr l x hl) hx, (FZ_travAll g hg c _ _ rd wr l x hl hx.1 hx.2).2.1⟩)
+      (fun l x hl hx => GS_travAll g hg c _ _ rd wr l x hl hx) q 2 _ _ ?_ s2
+    intro a ha
+    have h1 := s1.wf_susp
+    have hact := List.mem_reverse.1 ha
+    exact ⟨(WK_newPhase _ h1.1).2 a (Or.inl hact), fun e => h1.1.act_nosusp c (e ▸ hact) h1.2⟩
+
+/-- what a pending request guarantees: the loop is told not to block and the next resume_suspended_connections serves it -/
+theorem GS.served {c : Nat} {d : Daemon} (g : Guards) (h : GS c d) :
+    d.hintZero = true ∧ (c, CEv.resumed) ∈ (resumeSuspended g d).2 ∧ c ∈ (resumeSuspended g d).1.active ∧
+    c ∉ (resumeSuspended g d).1.susp := by
+  have rm := resume_moves_back g d h.1 c h.2.1 h.2.2.1
+  exact ⟨by simp [Daemon.hintZero, h.2.2.2], rm.1, rm.2.1, rm.2.2.1⟩
+
 theorem Pend_hint {c : Nat} {d : Daemon} (h : Pend c d) : d.hintZero = true := by
   simp [Daemon.hintZero, h.2.2]
 
